@@ -1363,11 +1363,13 @@ func installAtomics() {
 			used()
 			c := cell(a[0])
 			acquire(c)
+			raceAtomic(c, false)
 			return *c
 		}
 		externals["sync/atomic.Store"+ty] = func(fr *frame, a []value) value {
 			used()
 			c := cell(a[0])
+			raceAtomic(c, true)
 			release(c)
 			logCell(c)
 			*c = a[1]
@@ -1378,6 +1380,7 @@ func installAtomics() {
 			used()
 			c := cell(a[0])
 			acquire(c)
+			raceAtomic(c, true)
 			release(c)
 			logCell(c)
 			*c = binop(token.ADD, nil, *c, a[1])
@@ -1389,6 +1392,7 @@ func installAtomics() {
 			used()
 			c := cell(a[0])
 			acquire(c)
+			raceAtomic(c, true)
 			release(c)
 			old := *c
 			logCell(c)
@@ -1401,6 +1405,7 @@ func installAtomics() {
 			c := cell(a[0])
 			acquire(c)
 			if eng.truth(binop(token.EQL, types.Typ[types.Int64], *c, a[1])) {
+				raceAtomic(c, true)
 				release(c)
 				logCell(c)
 				*c = a[2]
